@@ -620,25 +620,80 @@ def run(ctx):
         def _closure_ret(name, subst):
             cb = prog.inlined("render::Cell::size::" + name) if prog.body("render::Cell::size::" + name) is not None else None
             if cb is None:
-                return None
+                return None, None
             e = expr(cb, {"k": "copy", "place": {"l": 0, "p": []}})
-            return re.sub(r"\barg(\d)\b", lambda m: subst.get(m.group(0), m.group(0)), e)
-        # the fallback width is a sum over the fallback characters of a per-character term: chars().map(f).sum() or chars().fold(0, |acc, c| acc + f(c))
+            return re.sub(r"\barg(\d)\b(?!\.)", lambda m: subst.get(m.group(0), m.group(0)), e), cb.local_ty(0)
+
+        def _apply(f, item, want_option=False):
+            """the term `f(item)` for a closure without captures or a function item handed to an adaptor; with want_option only when it yields an Option"""
+            m = re.fullmatch(r"closure:(\{closure#\d+\})\[\]", f)
+            if m:
+                r, ty = _closure_ret(m.group(1), {"arg2": item})
+                if r is None or (want_option and not (ty or "").startswith("std::option::Option<")):
+                    return None
+                return r
+            m = re.fullmatch(r"fn:(?:[\w<> ]+::)*?(\w+::\w+)", f)
+            if m and (not want_option or m.group(1) == "UnicodeWidthChar::width"):
+                return "%s(%s)" % (m.group(1), item)
+            return None
+
+        def _item_term(e, outer):
+            """the value one fallback character contributes to `sum(e)`, as a term over that character `C`: e is the fallback characters seen through
+            map (any depth) and, outermost only (0 is neutral for the sum, but not for a later map), the adaptors that drop None: filter_map(f),
+            flat_map(f) and map(f).flatten() with f -> Option all contribute f(c).unwrap_or(0)"""
+            if re.fullmatch(CHARS, e):
+                return "C"
+            a = _app(e)
+            if not a or a[2] != "":
+                return None
+            head, args = a[0], a[1]
+            if head in ("IntoIterator::into_iter", "Iterator::by_ref", "Iterator::fuse") and len(args) == 1:
+                return _item_term(args[0], outer)
+            if head == "Iterator::map" and len(args) == 2:
+                inner = _item_term(args[0], False)
+                return _apply(args[1], inner) if inner else None
+            if head in ("Iterator::filter_map", "Iterator::flat_map") and outer and len(args) == 2:
+                inner = _item_term(args[0], False)
+                r = _apply(args[1], inner, want_option=True) if inner else None
+                return "Option::unwrap_or(%s, 0)" % r if r else None
+            if head == "Iterator::flatten" and outer and len(args) == 1:
+                sub = _app(args[0])
+                if sub and sub[0] == "Iterator::map" and sub[2] == "" and len(sub[1]) == 2:
+                    inner = _item_term(sub[1][0], False)
+                    r = _apply(sub[1][1], inner, want_option=True) if inner else None
+                    return "Option::unwrap_or(%s, 0)" % r if r else None
+            return None
+
+        def _canon_w(e):
+            """Option::unwrap_or_default(x) on usize is Option::unwrap_or(x, 0)"""
+            a = _app(e) if e else None
+            if not a or not e.startswith(a[0] + "("):
+                return e
+            args = [_canon_w(x) for x in a[1]]
+            head = a[0]
+            if head == "Option::unwrap_or_default" and len(args) == 1:
+                head, args = "Option::unwrap_or", args + ["0"]
+            return "%s(%s)%s" % (head, ", ".join(args), a[2])
+        # the fallback width is a sum over the fallback characters of a per-character term: chars().map(f).sum(), a None-dropping adaptor before the sum,
+        # or chars().fold(0, |acc, c| acc + f(c))
         totals, cl_w, n_tot = [], None, 0
         for bb, t in cs.calls():
             if call_matches(t, r"Iterator::sum$"):
                 n_tot += 1
-                m = re.match(r"^Iterator::map\(" + CHARS + r", closure:(\{closure#\d+\})\[\]\)$", expr(cs, t["args"][0]))
-                if m:
-                    totals.append(_closure_ret(m.group(1), {"arg2": "C"}))
+                r_ = _item_term(expr(cs, t["args"][0]), True)
+                if r_ and r_ != "C":
+                    totals.append(r_)
             elif call_matches(t, r"Iterator::fold$") and len(t["args"]) == 3:
                 n_tot += 1
                 m = re.match(r"^closure:(\{closure#\d+\})\[\]$", expr(cs, t["args"][2]))
-                if m and re.match("^" + CHARS + "$", expr(cs, t["args"][0])) and expr(cs, t["args"][1]) == "0":
-                    r_ = _closure_ret(m.group(1), {"arg2": "ACC", "arg3": "C"}) or ""
+                item = _item_term(expr(cs, t["args"][0]), False)
+                if m and item and expr(cs, t["args"][1]) == "0":
+                    r_ = _closure_ret(m.group(1), {"arg2": "ACC", "arg3": item})[0] or ""
                     a = _app(r_)
                     if a and a[0] == "Add" and a[2] == "" and len(a[1]) == 2 and "ACC" in a[1]:
                         totals.append([x for x in a[1] if x != "ACC"][0] if a[1].count("ACC") == 1 else None)
+        char_w = _canon_w(char_w)
+        totals = [_canon_w(x) for x in totals]
         ok = False
         if char_w and n_tot == 1 and len(totals) == 1 and totals[0]:
             cl_w = totals[0]
